@@ -46,6 +46,12 @@ def isDominantB (bpms : List Tp) (last v : Rat) : Bool :=
 def dominantSet (bpms : List Tp) (last : Rat) : List Rat :=
   (groupKeys (bpms.map (·.bpm))).filter (fun v => isDominantB bpms last v)
 
+/-- `ref` is an admissible reference bpm: the override when one is given, else a dominant bpm -/
+def IsRef (bpms : List Tp) (last : Rat) (override : Option Rat) (ref : Rat) : Prop :=
+  match override with
+  | some b => ref = b
+  | none => IsDominant bpms last ref
+
 /-- admissible reference bpms: the override when given (and non-zero), else any dominant bpm -/
 def refSet (bpms : List Tp) (last : Rat) (override : Option Rat) : List Rat :=
   match override with
